@@ -13,9 +13,14 @@ CONFIG = dict(
                "functions on the same generated histories and diffing routes, stale marks, timer slots and "
                "is_peer_restarting after every step, with the reference checker as oracle on the real observations.",
     level_note="Trusted: Lean kernel; axioms propext/Classical.choice/Quot.sound; hand-written model (checked only by the "
-               "correspondence stream); harness sequencing of the real glue calls (a live TCP session is replaced by "
-               "PeerSession::new_for_test + direct calls). Modelled, not verified: tokio timer tasks (a timer is an explicit "
-               "event, fired through the code's own oneshot 'run now' path), restart/stale durations, RTC state, BMP/BFD.",
+               "correspondence streams).  Three streams on the same model, same observation, same oracle: `glue` (real glue "
+               "functions called in the session task's order, timers fired by explicit events), `glue-short` / `glue-real` "
+               "(1 s timers, `wait` = 1.25 s on tokio's paused / real clock: the REAL timer tasks of apply_disconnect and "
+               "spawn_llgr_timers elapse, are cancelled by a reconnect, are fired by force_down), `glue-tcp` (the peer's "
+               "session is a REAL session task — accept_connection + PeerSession::run on a loopback TCP connection, the "
+               "harness is the remote speaker; OPEN negotiation, handle_message's End-of-RIB detection, run_select's close "
+               "arm and the session_loop tail are the daemon's).  Modelled, not verified: the numeric durations (only "
+               "'1 s elapses within 1.25 s, 1 s armed at an expiry does not' is observed), RTC state, BMP/BFD.",
     lean_modules=["Rbgp.Gr.Helper.Props"],
     theorems=[
         "Rbgp.Gr.Helper.Props.check_run_ok",
@@ -44,7 +49,7 @@ CONFIG = dict(
          "families without MP-BGP, empty, or with repeats —, local speaker in selection deferral or not), announcements (with/without NO_LLGR / LLGR_STALE community), End-of-RIB per family, session down for every "
          "SessionDownReason (I/O, hold timer, remote/local NOTIFICATION with Cease / hard reset / non-Cease codes, FSM "
          "error, admin shutdown), a connection ending before Established, restart-timer and per-family LLGR-timer expiry, "
-         "ShutdownPeer, DisablePeer/EnablePeer, real-time `wait` in 1 s-timer cases (8 quick / 60 thorough), generated as session cycles with random events mixed in plus a pure-noise stream; plus "
+         "ShutdownPeer, DisablePeer/EnablePeer, `wait` in 1 s-timer cases (paused clock 400 quick / 6000 thorough, real clock 4 / 24), the same histories over a real TCP session where a remote speaker can cause them (240 / 1500), generated as session cycles with random events mixed in plus a pure-noise stream; plus "
          "the pure GrState machine: every reachable model state x every input (BFS in the model, 594 cases) and random "
          "input sequences; non-trivial = some stale or LLGR-stale route was observed; distinct = distinct case line",
     expect_tokens=["(rib (", "t (llt", "(llt 0", "(llt 1", "(llt 2", "start-timer", "stop-timer", "del-stale", "start-llgr",
@@ -52,17 +57,24 @@ CONFIG = dict(
     trusted_base=["model Rbgp/Gr/Helper/Model.lean of daemon/src/gr.rs GrState + the helper-side glue of event/mod.rs + the "
                   "per-peer RIB operations of table_manager.rs / table/src/lib.rs (stale marks kept per path instead of per "
                   "shared Source: every marking happens after the owning session ended)",
-                  "harness/daemon/c10.rs calls the real code in the order the session task would: establishment = "
-                  "PeerSession::apply_outputs on the FSM's SessionNegotiated/SessionEstablished outputs (PeerCodec::negotiate, "
-                  "negotiate_gr/negotiate_llgr on real capabilities, on_established) + process_effects; announcements = "
-                  "rx_update; session end = finish_session + apply_disconnect (also for a never-established connection); "
-                  "shutdown/disable/enable = the real gRPC handlers; timer expiry = the real expiry handlers (called "
-                  "directly with forced=false) and, in `glue-short` cases, the real timer tasks elapsing after 1 s of real "
-                  "time. Transcribed: run_select's mapping CloseReason -> SessionDownReason::AdminShutdown (applied only if "
-                  "the close reason really arrived on the session's close channel) and handle_message's "
-                  "`if negotiated_gr.is_some()` guard for End-of-RIB (3+1 lines; both need a TCP stream)"],
-    modelled_not_verified=["timer tasks (tokio::time::timeout on a oneshot) — expiry is an explicit event; durations are not "
-                           "modelled", "RTC state machine calls inside apply_disconnect / gr_restart_timer_expired",
+                  "`glue` / `glue-short` / `glue-real` (harness/daemon/c10.rs): the real code is called in the order the session "
+                  "task would: establishment = PeerSession::apply_outputs on the FSM's SessionNegotiated/SessionEstablished "
+                  "outputs (PeerCodec::negotiate, negotiate_gr/negotiate_llgr on real capabilities, on_established) + "
+                  "process_effects; announcements = rx_update; session end = finish_session + apply_disconnect (also for a "
+                  "never-established connection); shutdown/disable/enable = the real gRPC handlers; timer events = the real "
+                  "expiry handlers called directly (forced=false); `wait` = the real timer tasks on the paused (400 quick / 6000 "
+                  "thorough cases) or real (4 / 24) clock.  Transcribed THERE only: run_select's mapping CloseReason -> "
+                  "SessionDownReason::AdminShutdown and handle_message's `if negotiated_gr.is_some()` End-of-RIB guard "
+                  "(3+1 lines) — both are executed for real in the `glue-tcp` stream",
+                  "`glue-tcp` (harness/daemon/c10t.rs, 240 quick / 1500 thorough cases): transcribed are the three lines of "
+                  "serve's listener arm (accept_connection, tokio::spawn(run), store the join handle); the remote speaker "
+                  "(OPEN with MP / AS4 / GR incl. N bit / LLGR capabilities, KEEPALIVE, UPDATE with communities, End-of-RIB, "
+                  "NOTIFICATION, a second OPEN) is the harness's; a step ends after 16 quiet scheduler turns; not expressible "
+                  "over TCP and therefore only in the other streams: hold-timer expiry, local NOTIFICATIONs, `est`/`attempt` "
+                  "while a session may be up, `est` while administratively down, End-of-RIB of a non-IPv4 family the session "
+                  "does not carry"],
+    modelled_not_verified=["durations: restart / LLGR times are 1 s in the clock streams and never elapse in the others; that the "
+                           "negotiated number of seconds is the one used is not observed", "RTC state machine calls inside apply_disconnect / gr_restart_timer_expired",
                            "route ranking and distribution of the resulting NlriChanges (C02/C06/C01)"],
     assumptions=["the events of one peer are serialised by its PeerContext mutex; a session's tear-down (finish_session "
                  "+ apply_disconnect) is treated as one atomic step, and a new session of the peer is not established in between"],
@@ -192,22 +204,41 @@ def gen_pure(r):
     return "(pure %s)" % " ".join(ins)
 
 
-def gen_short(r):
-    """1 s restart / LLGR time; `wait` lets every armed timer elapse for real (1.25 s): the natural-expiry path"""
-    evs = [gen_est(r)]
-    fams = [int(x) for x in evs[0][6:evs[0].index(")")].split()] or [0]
+def gen_short(r, head="glue-short"):
+    """1 s restart / LLGR time; `wait` = 1.25 s pass and every timer that is due elapses IN ITS OWN TASK (the real
+    tokio timeout on the oneshot): natural expiry, cancellation by a reconnect (the sender is dropped), the forced
+    `run now` of shutdown / disable.  `glue-short` runs on tokio's paused clock, `glue-real` on the real one."""
+    evs = []
+    fams = [0]
     for _ in range(1 + r.below(3)):
-        evs.append("(ann %d %d %s f)" % (r.pick(fams), r.below(NX), b(r.chance(1, 3))))
-    evs.append("(down %s)" % ("io" if r.chance(3, 4) else gen_reason(r)))
-    if r.chance(1, 3):
-        evs.append("attempt")
-    evs.append("wait")
-    k = r.below(3)
-    if k == 0:
-        evs.append("wait")
-    elif k == 1:
-        evs.append(gen_est(r)); evs.append("(eor %d)" % r.pick(fams)); evs.append("(down io)"); evs.append("wait")
-    return "(glue-short %s)" % " ".join(evs)
+        e = gen_est(r)
+        evs.append(e)
+        fams = [int(x) for x in e[6:e.index(")")].split()] or [0]
+        for _ in range(1 + r.below(3)):
+            evs.append("(ann %d %d %s f)" % (r.pick(fams), r.below(NX), b(r.chance(1, 3))))
+        if r.chance(1, 3):
+            evs.append("(eor %d)" % r.pick(fams))
+        evs.append("(down %s)" % ("io" if r.chance(3, 4) else gen_reason(r)))
+        for _ in range(r.below(4)):
+            k = r.weighted([("wait", 6), ("attempt", 2), ("force", 1), ("disable", 1), ("enable", 1), ("gr-timer", 1),
+                            ("llgr-timer", 1)])
+            evs.append("(llgr-timer %d)" % r.pick(fams) if k == "llgr-timer" else k)
+        if r.chance(1, 2):
+            # reconnect inside the window: the pending timer task is cancelled / End-of-RIB purges
+            evs.append("enable")
+            e = gen_est(r)
+            evs.append(e)
+            f2 = [int(x) for x in e[6:e.index(")")].split()] or [0]
+            if r.chance(1, 2):
+                evs.append("wait")
+            for f in f2:
+                if r.chance(1, 2):
+                    evs.append("(eor %d)" % f)
+            evs.append("(down io)")
+            evs.append("wait")
+            if r.chance(1, 2):
+                evs.append("wait")
+    return "(%s %s)" % (head, " ".join(evs))
 
 
 def gen_tcp(r):
@@ -249,7 +280,7 @@ def gen_tcp(r):
             f = r.pick(fams) if r.chance(7, 8) else r.below(NF)
             evs.append("(ann %d %d %s %s)" % (f, r.below(NX), b(r.chance(1, 4)), b(r.chance(1, 8))))
         elif k == "eor":
-            evs.append("(eor %d)" % (r.pick(fams) if r.chance(5, 6) else r.below(NF)))
+            evs.append("(eor %d)" % (r.pick(fams) if (r.chance(5, 6) or up) else r.below(NF)) if not (up and r.chance(1, 8)) else "(eor 0)")
         elif k == "down":
             d = tcp_down()
             evs.append(d); up = False
@@ -285,9 +316,11 @@ def pure_bfs():
 def gen(seed, n, tier):
     r = Rng(seed * 1000003 + 10)
     cases = pure_bfs()
-    cases += [gen_short(r) for _ in range(8 if tier == "quick" else 60)]
+    rs = Rng(seed * 1000003 + 1011)
+    cases += [gen_short(rs) for _ in range(400 if tier == "quick" else 6000)]
+    cases += [gen_short(rs, "glue-real") for _ in range(4 if tier == "quick" else 24)]
     rt = Rng(seed * 1000003 + 1010)
-    cases += [gen_tcp(rt) for _ in range(240 if tier == "quick" else 4000)]
+    cases += [gen_tcp(rt) for _ in range(240 if tier == "quick" else 1500)]
     target = len(cases) + n
     while len(cases) < target:
         w = r.below(12)
